@@ -58,6 +58,9 @@ def check_closures(ctx, cfg, want_normal=False, rule_p="C04.P", rule_o="C04.O"):
                     "states_at_foreign_calls": [{"callee": e[3], "reads": st[0], "writes": st[1], "advances": st[2]} for e, st in info["at_foreign"]]})
         if not want_normal:
             link_closure(ctx, cfg, b, info, role, rule_o)
+        elif role == "untracked-consumer":
+            # reading without position tracking is ownership-linear only where the elements need no drop
+            link_closure(ctx, cfg, b, info, role, rule_p)
         n += 1
     for k in FROZEN + (FROZEN_F1 if cfg != "F0" else []):
         if k not in seen:
